@@ -129,6 +129,16 @@ func (r *cartRun) do(op string) string {
 		out = guard(func() string { r.m.Write(a, v); return "ok" })
 	case w[0] == "r" && len(w) == 2:
 		out = r.rd(uint16(unhex(w[1])))
+	case w[0] == "dma" && len(w) == 2:
+		// an OAM DMA transfer started through the same mapper: cartridge control writes must not care
+		out = guard(func() string { r.m.Write(0xff46, uint8(unhex(w[1]))); return "ok" })
+	case w[0] == "tm" && len(w) == 2:
+		out = guard(func() string {
+			for k := 0; k < atoi(w[1]); k++ {
+				r.m.EndMachineCycle()
+			}
+			return "ok"
+		})
 	case w[0] == "win":
 		parts := make([]string, 0, 9)
 		for _, a := range r.winAddrs {
@@ -318,6 +328,22 @@ func cartGen(c *ctx) {
 			}
 		}
 		rec(nil)
+	}
+	// Part A3: control writes while an OAM DMA transfer (from WRAM) is in flight, at several points of the transfer
+	for _, t := range []int{0x01, 0x05, 0x11, 0x19} {
+		for _, at := range []int{0, 1, 2, 80, 160, 161, 162, 200} {
+			r.reset(t, 3, 3, -1)
+			r.do("dma c0")
+			r.do(fmt.Sprintf("tm %d", at))
+			r.w(0x2100, 0x05)
+			r.win("dma-ctl")
+			r.w(0x0000, 0x0a)
+			r.w(0xa010, 0x77)
+			r.do("r a010")
+			r.do("tm 170")
+			r.w(0x2100, 0x03)
+			r.win("dma-ctl")
+		}
 	}
 	// Part B: malformed images.
 	for _, l := range []int{0, 1, 0x100, 0x147, 0x148, 0x149, 0x14a, 0x14b, 0x3fff, 0x4000, 0x4001, 0x7fff, 0x8000, 0x8001,
